@@ -2,6 +2,7 @@ import HC.Stream.Http
 import HC.Proto.Heads
 import HC.Props.C12
 import HC.Props.C19
+import HC.Proto.H2Window
 /-!
 # C02 — HTTP response delivery fidelity and legal framing (the hypercorn side of it)
 
@@ -175,6 +176,46 @@ theorem trailers_gate (s : S) (m : Option Msg) (hs : Headers) (h : Ev.trailers h
     | push p hdrs => simp only [appSend] at h; (repeat' split at h) <;> simp at h
     | earlyHint l => simp only [appSend] at h; (repeat' split at h) <;> simp at h
     | other => simp [appSend] at h
+
+/-! ### HTTP/2 flow control: a window update reaches every stream it concerns -/
+open HC.Proto.H2Window in
+/-- **every buffered stream whose window a WINDOW_UPDATE / SETTINGS change can have raised is unblocked**: a
+    connection-level update (h2: stream id 0) and an INITIAL_WINDOW_SIZE change (`None`) unblock every stream with a
+    buffer, a stream-level update its own stream.  (The tests are extracted from `H2Protocol._window_updated`.)
+    Without this a response that ran into the connection window would never resume. -/
+theorem window_update_unblocks (buffers : List Nat) (sid : Option Nat) (j : Nat) (hj : j ∈ buffers) (hb : benefits sid j = true) :
+    j ∈ unblocked buffers sid := by
+  cases sid with
+  | none => simp [unblocked, ReqGlue.windowUpdateAll, hj]
+  | some i =>
+    by_cases h0 : i = 0
+    · subst h0; simp [unblocked, ReqGlue.windowUpdateAll, hj]
+    · have hij : i = j := by simpa [benefits, h0] using hb
+      subst hij
+      simp [unblocked, ReqGlue.windowUpdateAll, ReqGlue.windowUpdateOne, h0, hj]
+
+open HC.Proto.H2Window in
+/-- only streams that have a buffer are touched (so `priority.unblock` is never asked about a stream it has lost) -/
+theorem window_update_only_buffered (buffers : List Nat) (sid : Option Nat) (j : Nat) (h : j ∈ unblocked buffers sid) : j ∈ buffers := by
+  cases sid with
+  | none =>
+    simp only [unblocked] at h
+    split at h
+    · exact h
+    · split at h <;> simp at h
+  | some i =>
+    simp only [unblocked] at h
+    split at h
+    · exact h
+    · split at h
+      · rename_i h1
+        simp only [Option.toList_some, List.mem_singleton] at h
+        subst h
+        simpa [ReqGlue.windowUpdateOne] using h1
+      · simp at h
+
+open HC.Proto.H2Window in
+example : unblocked [1, 3, 5] (some 0) = [1, 3, 5] ∧ unblocked [1, 3, 5] (some 3) = [3] ∧ unblocked [1, 3, 5] (some 7) = [] := by decide
 
 /-! ### what the libraries are handed -/
 open HC.Proto.Heads
